@@ -466,7 +466,7 @@ func (v *FnVerifier) havocKeys(st *State, ms *ModSet) {
 		keep := map[string]string{}
 		for k, t := range st.heaps {
 			// ghost counters of the function under verification itself: no callee can change them
-			if strings.HasPrefix(k, "GH!ncalls!") || k == "GH!nrecv" {
+			if strings.HasPrefix(k, "GH!ncalls!") || strings.HasPrefix(k, "GH!lastarg!") || k == "GH!nrecv" {
 				keep[k] = t
 			}
 		}
